@@ -32,6 +32,10 @@ def run(ctx):
                                 "xi_g from the population weights, with the domain lemma (sum w c > 0, xi in (0,1), beta parameters > 0) discharged in cross-multiplied form; "
                                 "get_major_cn_prior builds the stated genotypes with a uniform normalised prior and raises iff major < minor. Bounded: scipy reference on generated inputs "
                                 "(both densities, zero and extreme depth, sums to one over alternate counts, cluster sums and outlier terms for minimal and per-sample cluster files).")
+    if ctx.tier == "thorough":
+        from vcheck import lean as LN
+
+        LN.check_file(ctx, "MPmf.lean", "C05")  # binomial pmf sums to one; a normalised mixture of normalised pmfs sums to one
     from bounded import loader as L
 
     r = L.run_pmf(ctx.tier, ctx.seed)
